@@ -1120,3 +1120,44 @@ func instrPos(in ssa.Instruction) token.Pos {
 	}
 	return in.Parent().Pos()
 }
+
+// memBase returns the value whose memory an address / reference expression is based on
+// (following the address structure only, never the values stored in locals' elements).
+func memBase(v ssa.Value) ssa.Value {
+	for i := 0; i < 30; i++ {
+		switch x := v.(type) {
+		case *ssa.FieldAddr:
+			v = x.X
+		case *ssa.IndexAddr:
+			v = x.X
+		case *ssa.Slice:
+			v = x.X
+		case *ssa.ChangeType:
+			v = x.X
+		case *ssa.MakeInterface:
+			v = x.X
+		case *ssa.Lookup:
+			v = x.X
+		case *ssa.Field:
+			v = x.X
+		case *ssa.Index:
+			v = x.X
+		case *ssa.UnOp:
+			if x.Op != token.MUL {
+				return v
+			}
+			if a, ok := x.X.(*ssa.Alloc); ok {
+				s := reachingStore(a, x)
+				if s == nil {
+					return a
+				}
+				v = s.Val
+				continue
+			}
+			v = x.X
+		default:
+			return v
+		}
+	}
+	return v
+}
